@@ -38,8 +38,10 @@ VARIABLES img, last, count
 vars == <<img, last, count>>
 
 Modes     == {"full", "prefix", "corrupt"}
-Outcomes  == {"Ok", "Throw", "Same", "Different", "Usable", "OOB", "Crash", "Hang", "Leak", "HugeAlloc"}
-Forbidden == {"Different", "OOB", "Crash", "Hang", "Leak", "HugeAlloc"}     \* in every mode
+Outcomes  == {"Ok", "Throw", "Same", "Different", "Usable", "OOB", "Crash", "Hang", "Leak", "HugeAlloc", "SizeMismatch"}
+\* SizeMismatch: a heap block released with another size than it was allocated with (sized deallocation): undefined
+\* behaviour, the allocator-level form of "never ... a crash" - refused on every path and in every mode, full included
+Forbidden == {"Different", "OOB", "Crash", "Hang", "Leak", "HugeAlloc", "SizeMismatch"}     \* in every mode
 
 NoImage == [size |-> 0, infoLen |-> 0, preLen |-> 0, loaded |-> FALSE]
 None    == [mode |-> "none"]
